@@ -187,7 +187,7 @@ def observe(ctx, traces, props, module='TraceObs'):
         return []
     def one(tp):
         n = sum(1 for _ in open(tp))
-        r = run_tlc(module, env={'VT_TRACE': tp, 'VT_PROPS': ','.join(props)}, workers=1, timeout=1800, heap='3g')
+        r = run_tlc(module, env={'VT_TRACE': tp, 'VT_PROPS': ','.join(list(props) + ['L2'])}, workers=1, timeout=1800, heap='3g')
         if not r.ok():
             raise Infra('trace observer failed on %s:\n%s' % (tp, filtered(r.out, 60)))
         if r.distinct != n + 1:
@@ -197,12 +197,24 @@ def observe(ctx, traces, props, module='TraceObs'):
             m = re.match(r'<<"L1", "([^"]+)", "([^"]*)", (\d+)>>', p)
             if m:
                 v.append((m.group(1), m.group(2)))
+            m = re.match(r'<<"L2", "drift", "([^"]*)", (\d+)>>', p)
+            if m:
+                v.append(('L2', m.group(1)))
         return v, r.distinct
     out = []
     with ThreadPoolExecutor(max_workers=min(len(traces), NCPU)) as ex:
         for v, st in ex.map(one, traces):
-            out.extend(v)
+            for pr, sid in v:
+                if pr == 'L2':
+                    # spec drift: the design no longer predicts the code's output although no listed property
+                    # is violated on this trace -> a note, never a verdict
+                    ctx.extra.setdefault('drift_scenarios', [])
+                    if sid not in ctx.extra['drift_scenarios']:
+                        ctx.extra['drift_scenarios'].append(sid)
+                else:
+                    out.append((pr, sid))
             ctx.extra['observer_states'] = ctx.extra.get('observer_states', 0) + st
+    ctx.extra['spec_drift'] = len(ctx.extra.get('drift_scenarios', []))
     return out
 
 def read_traces(traces):
@@ -303,6 +315,8 @@ def write_evidence(ctx, level, rule, exhaustive=False, trusted=None):
         json.dump(ev, f, indent=1)
 
 def finish(ctx):
+    for sid in ctx.extra.get('drift_scenarios', [])[:10]:
+        print('NOTE spec-drift: the design spec does not predict the output of scenario %s' % sid)
     for prop, label, what in ctx.known:
         print('KNOWN-FINDING: property=%s %s (%s)' % (prop, label, what))
     for prop, label, sid, path in ctx.violations:
